@@ -223,7 +223,7 @@ def split_reply(line):
     return line, "(oracle none)"
 
 
-def corr_pass(chk, mode, lines, label, known_matcher=None, nontrivial=None, model_lines=None, engine="rs", oracle_filter=None, view=None):
+def corr_pass(chk, mode, lines, label, known_matcher=None, nontrivial=None, model_lines=None, engine="rs", oracle_filter=None, view=None, extra_oracle=None):
     """Run impl and model on the same request lines; compare replies; consult the impl-side oracle.
     Returns stats dict. Classification (DESIGN.md §6):
       reply differs + oracle fail  -> violation with the request as failing input
@@ -233,7 +233,11 @@ def corr_pass(chk, mode, lines, label, known_matcher=None, nontrivial=None, mode
     oracle_filter(oracle_text) -> None if this property's part of the oracle is ok, else the relevant failure text.
     known_matcher(req, impl_reply, oracle_text, hyps_text) -> description string of the matching open finding or None.
     """
-    impl, rc, err = (chk.run_impl_js if engine == "js" else chk.run_impl)(mode, lines)
+    if engine == "two-stage":
+        impl, info = two_stage(chk, lines)
+        rc, err = 0, str(info)
+    else:
+        impl, rc, err = (chk.run_impl_js if engine == "js" else chk.run_impl)(mode, lines)
     model, rc2, err2 = chk.run_model(model_lines if model_lines is not None else lines)
     stats = {"requests": len(lines), "mismatch": 0, "oracle_fail": 0, "known": 0, "nontrivial": 0}
     if len(impl) != len(lines):
@@ -258,6 +262,11 @@ def corr_pass(chk, mode, lines, label, known_matcher=None, nontrivial=None, mode
         else:
             ofail = not orc.startswith("(oracle ok") and not orc.startswith("(oracle none")
             orc_rel = orc
+        if extra_oracle is not None:
+            eo = extra_oracle(req, ir, hyps)
+            if eo:
+                ofail = True
+                orc_rel = (orc_rel if orc_rel != "(oracle ok)" else "") + " " + eo
         if ofail:
             stats["oracle_fail"] += 1
         if (view(ir) != view(mr.strip())) if view else (ir != mr.strip()):
@@ -385,6 +394,26 @@ def generic_run(chk, modules, audit, passes, trusted, open_obl, rule, translator
         "corr_known_finding_hits": sum(s["known"] for s in stats),
         "corr_rule": rule,
     })
+
+
+def two_stage(chk, lines, stage1_mode="compile", stage2_mode="prog"):
+    """Rust stage (real compiler) then JS stage (emitted module against the real runtime): returns impl reply lines
+    '<reply>\t<oracle>' aligned with `lines` (a crashed stage is reported as its own reply)"""
+    s1, rc, err = chk.run_impl(stage1_mode, lines)
+    if len(s1) != len(lines):
+        # the compiler process died (abort / stack overflow): attribute to the first unanswered request
+        bad = len(s1)
+        return s1 + ["(compiler-crash)\t(oracle fail c04.crash)"] * (len(lines) - bad), {"crash_at": bad, "stderr": err[-400:]}
+    joined = [l + "\t" + split_reply(r)[0] for l, r in zip(lines, s1)]
+    s2, rc2, err2 = chk.run_impl_js(stage2_mode, joined)
+    if len(s2) != len(lines):
+        s2 = s2 + ["(js-host-crash)\t(oracle fail c04.jscrash)"] * (len(lines) - len(s2))
+    # keep the compile-stage oracle (panic location) when it failed
+    out = []
+    for a, b in zip(s1, s2):
+        ra, oa = split_reply(a)
+        out.append(b if oa.startswith("(oracle ok") else f"{split_reply(b)[0]}\t{oa}")
+    return out, {}
 
 
 def known_by_hyp(chk, mapping):
